@@ -263,7 +263,7 @@ func reconnectScripted(w *trace.Writer, seed int64) bool {
 		case <-subDone:
 		case <-time.After(750*time.Millisecond + 20*client.RetryMaxDelay + 5*time.Second):
 			e.emit(trace.E{"ev": "hang", "what": "Subscribe does not return after its context's deadline"})
-			rc.Close()
+			go rc.Close() // it may never return either: the scenario is over
 			return true
 		}
 		e.fire()
@@ -303,7 +303,7 @@ func reconnectScripted(w *trace.Writer, seed int64) bool {
 		case <-again:
 		case <-time.After(bound):
 			e.emit(trace.E{"ev": "hang", "what": "Subscribe on a closed client does not return"})
-			rc.Close()
+			go rc.Close() // it may never return either: the scenario is over
 			return true
 		}
 	}
